@@ -22,7 +22,7 @@ from typing import Dict, FrozenSet, List, Optional, Set, Tuple
 
 from .model import AnalysisError, ClassInfo, FunctionInfo, Repo
 from .sym import NONE, State, Term, mentions, show, subterms
-from .util import SELF, arg, callee, guards_of, is_call, method_call, paths
+from .util import SELF, arg, callee, guards_of, is_call, method_call, paths, returning
 
 Roots = FrozenSet[str]
 FRESH: Roots = frozenset({'fresh'})
@@ -98,6 +98,8 @@ class Effect:
 
 
 class Effects:
+    _impure_getters = None
+
     def __init__(self, repo: Repo):
         self.repo = repo
         self._summary: Dict[str, List[Effect]] = {}
@@ -575,10 +577,76 @@ class Effects:
                                obj))
                 elif ev.kind == 'call':
                     self._call_effects(ev, p, fn, ln, add)
+                elif ev.kind == 'augname':
+                    # ``x += v`` where x names, by reference, a tensor owned by somebody else
+                    # (a buffer / parameter attribute, or a property that hands one out
+                    # unchanged): the owner's tensor is modified in place
+                    cur = ev.data[1]
+                    if cur[0] in ('attr', 'sub', 'elem') and self._by_reference(cur):
+                        r = self.root(cur, p, fn)
+                        r = frozenset('fresh' if a.startswith('sh:') else a for a in r)
+                        add(Effect('inplace', r, '+=', f'{ev.data[0]} += ... on {show(cur)[:80]}',
+                                   fn, ln, (), None, cur))
+            # property reads: a getter that has effects of its own (e.g. an in-place update of
+            # a value it hands out by reference) performs them at every read
+            if self._impure_getters is None:
+                self._impure_getters = {}
+                for ci in self.repo.classes.values():
+                    for gname, g in ci.getters.items():
+                        if g is not fn and any(ev2.kind == 'augname' or
+                                               (ev2.kind == 'call' and method_call(ev2.data[0]) and
+                                                method_call(ev2.data[0])[1].endswith('_') and
+                                                not method_call(ev2.data[0])[1].startswith('_'))
+                                               for q in paths(self.repo, g) for ev2 in q.events):
+                            self._impure_getters.setdefault(gname, []).append(g)
+            if self._impure_getters:
+                seen_reads = set()
+                for ev in p.events:
+                    for d in ev.data:
+                        if not isinstance(d, tuple):
+                            continue
+                        for x in subterms(d):
+                            if x[0] == 'attr' and x[2] in self._impure_getters and \
+                                    x not in seen_reads:
+                                seen_reads.add(x)
+                                ln = getattr(ev.node, 'lineno', fn.node.lineno)
+                                for g in self._impure_getters[x[2]]:
+                                    if g is fn:
+                                        continue
+                                    self._instantiate_roots(
+                                        g, 'method', self.root(x[1], p, fn), [], {}, {}, {},
+                                        f'{fn.qualname.split("plinio.")[-1]}:{ln}', add)
         res = list(effs.values())
         self._active.discard(key)
         self._summary[key] = res
         return res
+
+    def _by_reference(self, t: Term) -> bool:
+        """The attribute chain ends in a registered buffer / parameter name, or in a property
+        some class of the repository implements by returning an attribute unchanged."""
+        while t[0] in ('sub', 'elem'):
+            t = t[1]
+        if t[0] != 'attr':
+            return False
+        name = t[2]
+        if not hasattr(self, '_ref_names'):
+            from .pitlib import storage_kinds
+            names = set()
+            for ci in self.repo.classes.values():
+                try:
+                    names |= {k for k, v in storage_kinds(self.repo, ci).items()
+                              if v in ('param', 'buffer')}
+                except Exception:       # noqa: BLE001
+                    pass
+                for gname, g in ci.getters.items():
+                    for q in returning(paths(self.repo, g)):
+                        r = q.retval
+                        while r is not None and r[0] == 'call' and callee(r) == 'typing.cast':
+                            r = r[2][-1]
+                        if r is not None and (r[0] == 'attr' or is_call(r, 'builtins.getattr')):
+                            names.add(gname)
+            self._ref_names = names
+        return name in self._ref_names
 
     def _setter_effects(self, recv, attr, val, p, fn, ln, add):
         """``obj.attr = v`` where attr is a property with a setter in the repository."""
